@@ -322,6 +322,30 @@ def _calculate_shape(ctx, prog, rule, calc_path):
                         ops = {tree_str(strip_casts(i1[2])), tree_str(strip_casts(i1[3]))}
                         ok_step = "arg2" in ops and "arg3" in ops
     ctx.ob(rule, "step/Crc32::calculate", ok_step, "step tree %s (expected table[(sum ^ byte) as u8] ^ (sum >> 8))" % sdesc)
+    # coverage: the bytes folded are *all* bytes of the slice, in order - the iterator chain between `data` and the byte
+    # may only contain adapters that neither drop, repeat nor reorder elements
+    KEEP = {"iter", "into_iter", "copied", "cloned", "by_ref", "as_ref", "deref", "as_slice", "chunks", "flatten", "next", "borrow", "as_ptr_range", "to_vec", "iter_mut"}
+    DROP = {"chunks_exact", "rchunks_exact", "rchunks", "take", "skip", "step_by", "take_while", "skip_while", "filter", "windows", "split_at", "get", "index",
+            "rev", "split_first", "split_last", "first", "last", "nth", "zip", "filter_map", "array_chunks", "as_chunks", "split_at_checked", "get_unchecked"}
+    names, roots_ = set(), set()
+    for g in [c] + list(prog.closures_of(c)):
+        Rg = Resolver(g)
+        for bi, t in g.calls(lambda cc, t: cc.endswith("::next") or cc.endswith("::fold") or cc.endswith("::for_each") or cc.endswith("::try_fold")):
+            for x in leaves(Rg.operand(t["args"][0])):
+                if x[0] == "call":
+                    names.add(x[1].rsplit("::", 1)[-1].split("<")[0])
+                elif x[0] == "param":
+                    roots_.add(x[1])
+    remainder = any(True for g in [c] + list(prog.closures_of(c)) for bi, t in g.calls(lambda cc, t: cc.rsplit("::", 1)[-1] in ("remainder", "into_remainder")))
+    bad = sorted(names & DROP)
+    unknown = sorted(names - DROP - KEEP)
+    if bad and not remainder:
+        cov = False
+    elif bad or unknown or 2 not in roots_:
+        cov = None
+    else:
+        cov = True
+    ctx.ob(rule, "coverage/Crc32::calculate", cov, "the bytes folded come from the data slice through %s (adapters that drop, repeat or reorder bytes: %s; not recognised: %s)" % (sorted(names), bad, unknown))
 
 
 def _crc32c_shape_by_paths(ctx, prog, rule, f, R, rp, calc_path):
